@@ -13,7 +13,7 @@ from vp.checks import conelp_h as H
 from vp.oracles import cone as O
 from vp.pysym.cut import Cut
 
-DIMS_QUICK = [{'l': 1, 'q': [], 's': []}, {'l': 0, 'q': [2], 's': []}, {'l': 1, 'q': [], 's': [2, 2]}]
+DIMS_QUICK = [{'l': 1, 'q': [], 's': []}, {'l': 0, 'q': [2], 's': []}, {'l': 1, 'q': [], 's': [2, 2]}, {'l': 1, 'q': [2], 's': [2]}]
 DIMS_THOROUGH = DIMS_QUICK + [{'l': 2, 'q': [2], 's': []}, {'l': 0, 'q': [], 's': [2]}]
 
 def configs(tier):
@@ -230,6 +230,28 @@ def generic_pins(names, cfg, seed_, free=None):
         out.append(z3.Real(nme) == z3.RealVal(str(val)))
     return out
 
+def generic_value(name, cfg, seed_):
+    """concrete generic state for the witness search that backs up an undecided obligation (see main): interior iterate,
+    generic small-integer data, tiny tolerances, iteration index by class, everything else positive"""
+    import random
+    dims = cfg['dims']
+    def interior(shift):
+        v = [1.0 + shift + i for i in range(dims['l'])]
+        for m in dims['q']: v += [m + 1.0 + shift] + [1.0]*(m - 1)
+        for m in dims['s']:
+            for j in range(m):
+                for i in range(m): v.append(m + 1.0 + shift + i if i == j else 1.0)
+        return v
+    if name == 'k': return 0 if cfg['kclass'] == 'k0' else 1
+    m_ = re.match(r'^h([sz])(\d+)$', name)
+    if m_: return (interior(1 + seed_) if m_.group(1) == 's' else interior(seed_))[int(m_.group(2))]
+    if name in ('feastol', 'abstol', 'reltol'): return 1e-9
+    rnd = random.Random('%s/%d' % (name, seed_))
+    if re.match(r'^(c\d+|q\d+|G\d+_\d+|h\d+|A\d+_\d+|b\d+|hx\d+|hy\d+|u\d+[xyz]\d+)$', name): return float(rnd.choice([-3, -2, -1, 1, 2, 3]))
+    m_ = re.match(r'^P(\d+)_(\d+)$', name)
+    if m_: return 4.0 + seed_ if m_.group(1) == m_.group(2) else 1.0
+    return 1.0 + 0.25*rnd.randint(0, 4)
+
 # ---------------------------------------------------------------------------------- symbolic job
 
 _WORLD = None
@@ -360,6 +382,11 @@ def job(cfg):
             for seed_ in range(2):
                 v, m, dt = sym.check(pc + list(A.side) + generic_pins(names, cfg, seed_) + [z3.Not(goal)], 3000, want_model=True)
                 if v == 'sat': got = m; break
+            if got is None:
+                # same anchors with the problem data and the tolerances left to the solver (the path may need particular signs of the costs)
+                for seed_ in range(2):
+                    v, m, dt = sym.check(pc + list(A.side) + generic_pins(names, cfg, seed_, free=r'^(c\d+|q\d+|P\d+_\d+|h\d+|b\d+|feastol|abstol|reltol|u\d+[xyz]\d+)$') + [z3.Not(goal)], 5000, want_model=True)
+                    if v == 'sat': got = m; break
             if got is not None:
                 count('sat', r['secs']); res['sat'].append({'label': label, 'model': sym.model_to_dict(got)})
             else:
@@ -402,7 +429,7 @@ def replay(cfg, model):
     A = alg.ConcAlg()
     def val(name):
         v = model.get(name)
-        if v is None: return 1.0
+        if v is None: return generic_value(name, cfg, int(model.get('__seed__', 0))) if '__seed__' in model else 1.0
         try: return float(fractions.Fraction(v))
         except Exception: return float(v)
     def mk(name, kind='real'):
@@ -497,6 +524,29 @@ def main(tier):
                 herr.append('%s: counterexample for "%s" %s (%s)' % (json.dumps(cfg), s['label'], why, rp))
             elif key in known: known_hits.append((key, known[key]['what']))
             else: violations.append((key, rp, '%s -> %s' % (json.dumps(cfg), rep)))
+    # ---- witness search for undecided obligations of the conelp/coneqp plans: the same harness on the real build from a few
+    # generic concrete states; a reproduced violation is reported as such (it is one), an obligation without witness stays inconclusive
+    still = []
+    tried = {}
+    for item in inconc:
+        try: cfg = json.loads(item[:item.index('}: ') + 1]); label = item[item.index('}: ') + 3:]
+        except Exception: still.append(item); continue
+        if cfg.get('solver') == 'cpl' or cfg.get('part'): still.append(item); continue
+        ck = json.dumps(cfg, sort_keys=True)
+        if ck not in tried:
+            tried[ck] = None
+            for seed_ in range(4):
+                rp = common.write_replay('C10', ck + 'witness%d' % seed_, {'property': 'C10', 'cfg': cfg, 'label': label, 'model': {'__seed__': seed_}})
+                rep, why = replay_on_build(rp)
+                if rep is not None: tried[ck] = (rp, rep); break
+        if tried[ck] is None: still.append(item); continue
+        key = finding_key(cfg, label)
+        if key in seen: continue
+        seen[key] = 1
+        rp, rep = tried[ck]
+        if key in known: known_hits.append((key, known[key]['what']))
+        else: violations.append((key, rp, '%s -> %s (witness found by concrete search after the solver did not decide)' % (json.dumps(cfg), rep)))
+    inconc = still
     # one KNOWN-FINDING line per listed key
     kh = {}
     for k_, t_ in known_hits: kh[k_] = t_
